@@ -132,13 +132,28 @@ fn schedules(max_reads: usize) -> Vec<Vec<usize>> {
     v
 }
 
-fn run_job(shape: usize, order: usize, kind: usize, thorough: bool) -> JobOut {
+/// value scale of the extreme-magnitude runs: the power of two that brings n * max|v| to 2^1020 (huge: every
+/// centroid sum stays finite with a factor 4 to spare) or max|v| down to 2^-1000 (tiny: every non-zero value of
+/// the shapes used stays a normal number); multiplying by a power of two is exact, so the scaled stream has
+/// exactly the ranks of the unscaled one.
+fn value_scale(vmode: usize, n: usize, maxabs: f64) -> f64 {
+    match vmode {
+        0 => 1.0,
+        1 => f64::from_bits(((1023 + 1020 - ((n as f64) * maxabs).log2().ceil() as i64) as u64) << 52),
+        _ => f64::from_bits(((1023 - 1000 - maxabs.log2().ceil() as i64) as u64) << 52),
+    }
+}
+const VMODES: [&str; 3] = ["as written", "scaled up to n*max|v| = 2^1020", "scaled down to max|v| = 2^-1000"];
+
+fn run_job(shape: usize, order: usize, kind: usize, vmode: usize, thorough: bool) -> JobOut {
     let mut out = JobOut::default();
     // quick: n = 20000 for two shapes x three orders (size bound and accuracy at large n / small steps)
     let big_in_quick = (shape == 0 || shape == 2) && (order == 0 || order == 2 || order == 4);
-    let ns: Vec<usize> = if thorough { vec![200, 2000, 20000, 100000] } else if big_in_quick { vec![200, 2000, 20000] } else { vec![200, 2000] };
+    let ns: Vec<usize> = if vmode != 0 { if thorough { vec![2000, 20000] } else { vec![2000] } } else if thorough { vec![200, 2000, 20000, 100000] } else if big_in_quick { vec![200, 2000, 20000] } else { vec![200, 2000] };
     for &n in &ns {
         let sorted: Vec<f64> = (0..n).map(|i| shape_value(shape, (i as f64 + 0.5) / n as f64)).collect();
+        let vs = value_scale(vmode, n, sorted[0].abs().max(sorted[n - 1].abs()));
+        let sorted: Vec<f64> = sorted.iter().map(|v| v * vs).collect();
         let perm = order_perm(order, n);
         let (mn, mx) = (sorted[0], sorted[n - 1]);
         let tau = 16.0 * f64::EPSILON * mn.abs().max(mx.abs()).max(mx - mn);
@@ -147,12 +162,12 @@ fn run_job(shape: usize, order: usize, kind: usize, thorough: bool) -> JobOut {
                 continue;
             }
             let wb = w_bound(kind, delta, n);
-            let backlogs: Vec<usize> = if n >= 100000 { vec![0, 100, n] } else if n >= 20000 && !thorough { vec![1, 100, n] } else { vec![0, 1, 10, 100, 1000, n] };
-            let max_reads = if n >= 100000 { 0 } else if n >= 20000 { if thorough { 1 } else { 0 } } else if thorough { 2 } else { 1 };
+            let backlogs: Vec<usize> = if n >= 100000 || vmode != 0 { vec![0, 100, n] } else if n >= 20000 && !thorough { vec![1, 100, n] } else { vec![0, 1, 10, 100, 1000, n] };
+            let max_reads = if n >= 100000 { 0 } else if n >= 20000 { if thorough && vmode == 0 { 1 } else { 0 } } else if vmode != 0 { if thorough { 1 } else { 0 } } else if thorough { 2 } else { 1 };
             for &backlog in &backlogs {
                 for sched in schedules(max_reads) {
                     out.runs += 1;
-                    let cfg = format!("{} {} {}(delta={}) n={} backlog={} reads_at_eighths={:?}", SHAPES[shape], ORDERS[order], KIND_NAMES[kind], delta, n, backlog, sched);
+                    let cfg = format!("{} {} {}(delta={}) n={} backlog={} reads_at_eighths={:?}{}", SHAPES[shape], ORDERS[order], KIND_NAMES[kind], delta, n, backlog, sched, if vmode != 0 { format!(" values x{:e} ({})", vs, VMODES[vmode]) } else { String::new() });
                     let r = mccore::panics::catch(|| {
                         let mut d = Dg::new(kind, delta, backlog);
                         let mut excess: Option<String> = None;
@@ -272,14 +287,19 @@ fn main() {
     for shape in 0..SHAPES.len() {
         for order in 0..ORDERS.len() {
             for kind in 0..4 {
-                jobs.push((shape, order, kind));
+                jobs.push((shape, order, kind, 0usize));
+                // extreme magnitudes (values near f64::MAX / near the smallest normal numbers): same ranks, same bound
+                if [0, 1, 5, 8].contains(&shape) && (thorough || [0, 2, 3].contains(&order)) {
+                    jobs.push((shape, order, kind, 1));
+                    jobs.push((shape, order, kind, 2));
+                }
             }
         }
     }
-    let res = par_map(&jobs, n_threads(), |&(s, o, k)| run_job(s, o, k, thorough));
+    let res = par_map(&jobs, n_threads(), |&(s, o, k, vm)| run_job(s, o, k, vm, thorough));
     let (mut runs, mut inserts, mut evals) = (0u64, 0u64, 0u64);
     let mut fam: BTreeMap<(usize, usize), (f64, f64, String)> = BTreeMap::new();
-    for ((s, o, k), out) in jobs.iter().zip(res) {
+    for ((s, o, k, _vm), out) in jobs.iter().zip(res) {
         runs += out.runs;
         inserts += out.inserts;
         evals += out.evals;
@@ -323,7 +343,7 @@ fn main() {
     run.ev.set("families", json!(table));
     run.ev.set("exhaustive", json!(true));
     run.ev.set("samples", json!([{"shape": "exponential", "order": "bit-reversal", "scale": "K2(delta=50)", "n": 2000, "backlog": 10, "reads_at_eighths": [3], "checked": "n_centroids <= 53 at the read and at the end; rank error of quantile(q) on 403 q values and of cdf(x) on 401 x values <= 1 W + 2/n"}]));
-    run.ev.set("rule", json!("(A) every sequence over 5 values + read up to the depth for 4 scale functions x delta in {1.1,2,3,5} x backlog in {0,1,2,inf}; (B) 9 shapes x 5 orders x 4 scale functions x 6 deltas x n in {200,2000[,20000,100000]} x 6 backlogs x every read schedule with <= 1 (quick) / <= 2 (thorough, n <= 2000) reads on 8 stream positions; all cases distinct by construction"));
+    run.ev.set("rule", json!("(A) every sequence over 5 values + read up to the depth for 4 scale functions x delta in {1.1,2,3,5} x backlog in {0,1,2,inf}; (B) 9 shapes x 5 orders x 4 scale functions x 6 deltas x n in {200,2000[,20000,100000]} x 6 backlogs x every read schedule with <= 1 (quick) / <= 2 (thorough, n <= 2000) reads on 8 stream positions; all cases distinct by construction; shapes uniform/normal/ties-10/cliff additionally with all values multiplied by a power of two up to n*max|v| = 2^1020 and down to max|v| = 2^-1000 (n = 2000, thorough also 20000; backlogs 0/100/n)"));
     run.ev.assume("float inputs are infinite: the claim covers the stated finite families (DESIGN.md 3/C04), values are exact quantile functions, no RNG");
     run.ev.assume("tie-aware rank interval with tau = 16 ulps of the data range; the literal 'fraction <= quantile(q)' is unsatisfiable on atoms heavier than the bound");
     run.finish();
